@@ -110,8 +110,11 @@ def _one(rec):
             # numbers by name
             seen, blocks = set(), []
             for b in rec["blocks"]:
-                ents = [e for e in b["entries"] if (b["k"], e["name"]) not in seen]
-                seen |= {(b["k"], e["name"]) for e in ents}
+                ents = []
+                for e in b["entries"]:     # an identical repetition (in this block or another) is one definition
+                    if (b["k"], e["name"]) not in seen:
+                        seen.add((b["k"], e["name"]))
+                        ents.append(e)
                 if ents:
                     blocks.append(dict(b, entries=ents))
             snames = sorted({e["name"] for b in blocks if b["k"] == "states" for e in b["entries"]})
